@@ -76,8 +76,9 @@ func (cache *lruCache) Put(publicKey *curve.CompressedEdwardsY, expanded *ed2551
 	defer cache.Unlock()
 
 	// Do a lookup to see if the entry already exists.
-	if entry := cache.getLocked(publicKey); entry != nil {
-		// Already in the cache, and now marked as most-recently-used.
+	if _, ok := cache.store[*publicKey]; ok {
+		// Already in the cache, mark it as most-recently-used.
+		cache.getLocked(publicKey)
 		return
 	}
 
